@@ -684,7 +684,7 @@ func main() {
 			n := 0
 			for it.Next() {
 				i, a := it.IndexedAttribute()
-				if i != n || n >= len(ts) || a != ts[n] && fmt.Sprint(fromAttr(a.Value)) != fmt.Sprint(fromAttr(ts[n].Value)) {
+				if i != n || n >= len(ts) || a.Key != ts[n].Key || fmt.Sprint(fromAttr(a.Value)) != fmt.Sprint(fromAttr(ts[n].Value)) {
 					w.Violation("Iter disagrees with ToSlice", desc)
 					break
 				}
@@ -779,7 +779,7 @@ func main() {
 
 	// ---- generated ----
 	anyCfg := genCfg{}
-	nNew := o.Count(650, 12000)
+	nNew := o.Count(520, 12000)
 	for i := 0; i < nNew; i++ {
 		n := vgen.Pick(r, sizes)
 		input := genInput(r, anyCfg, n)
@@ -815,7 +815,7 @@ func main() {
 			}
 		}
 	}
-	nPair := o.Count(420, 8000)
+	nPair := o.Count(340, 8000)
 	for i := 0; i < nPair; i++ {
 		cfg := genCfg{regular: r.Chance(2, 3)}
 		base := genInput(r, cfg, vgen.Pick(r, sizes))
@@ -833,7 +833,7 @@ func main() {
 	}
 
 	// --- CLookup ---
-	nLook := o.Count(180, 3000)
+	nLook := o.Count(150, 3000)
 	for i := 0; i < nLook; i++ {
 		input := genInput(r, anyCfg, vgen.Pick(r, sizes))
 		desc := map[string]any{"op": "Value/HasValue", "input": kvsDesc(input)}
@@ -872,7 +872,7 @@ func main() {
 	}
 
 	// --- CFilter ---
-	nFilt := o.Count(300, 5000)
+	nFilt := o.Count(240, 5000)
 	for i := 0; i < nFilt; i++ {
 		input := genInput(r, anyCfg, vgen.Pick(r, sizes))
 		f := genFilter(r, anyCfg, input, true)
@@ -895,7 +895,7 @@ func main() {
 	}
 
 	// --- CMerge ---
-	nMerge := o.Count(200, 3000)
+	nMerge := o.Count(160, 3000)
 	for i := 0; i < nMerge; i++ {
 		i1 := genInput(r, anyCfg, vgen.Pick(r, sizes))
 		i2 := genInput(r, anyCfg, vgen.Pick(r, sizes))
@@ -928,10 +928,14 @@ func main() {
 	}
 
 	// --- CEnc ---
-	nEnc := o.Count(150, 2500)
+	nEnc := o.Count(130, 2500)
 	utfCfg := genCfg{utf8only: true}
 	for i := 0; i < nEnc; i++ {
-		input := genInput(r, utfCfg, vgen.Pick(r, sizes[:14]))
+		cfg := utfCfg
+		if i%2 == 0 {
+			cfg.types = []int{4} // only strings: the encoding must decode back to exactly the bindings
+		}
+		input := genInput(r, cfg, vgen.Pick(r, sizes[:14]))
 		if !validUTF(input) {
 			continue
 		}
